@@ -1,2 +1,2 @@
 """Static analysis engine for zopefoundation/BTrees (see /verif/DESIGN.md)."""
-ENGINE_VERSION = "2026-09-29.4"
+ENGINE_VERSION = "2026-09-29.5"
